@@ -453,6 +453,17 @@ def splice_proof_text(body, loop_specs, loop_iters, ghost, path, rec):
             o = body.find("{")
             edits.append((o + 1, "\n" + block))
             continue
+        if where in ("inloop", "afterloop"):
+            n = int(anchor)
+            if n < 1 or n > len(loops):
+                raise Undecided("lost anchor: fn %s has %d loops, ghost text refers to loop %d" % (path, len(loops), n))
+            bo = loops[n - 1][2]
+            if where == "inloop":
+                edits.append((bo + 1, "\n" + block))
+            else:
+                bc = match_close(body, code_mask(body), bo)
+                edits.append((bc + 1, "\n" + block))
+            continue
         cnt = body.count(anchor)
         if cnt != 1:
             raise Undecided("lost anchor: %r occurs %d times in fn %s" % (anchor, cnt, path))
@@ -495,7 +506,7 @@ def _pub_fields_body(body, rec):
 DIRECTIVE = re.compile(r"^\s*//@\s*(extract|implhdr)\s+(.*)$")
 CONT = re.compile(r"^\s*//@\s*\|(.*)$")
 LOOPSPEC = re.compile(r"^\s*//@\s*L(\d+)\|(.*)$")
-GHOSTHDR = re.compile(r"^\s*//@\s*@(before|after|start)\s*(?:`(.*)`)?\s*$")
+GHOSTHDR = re.compile(r"^\s*//@\s*@(before|after|start|inloop|afterloop)\s*(?:`(.*)`|(\d+))?\s*$")
 GHOSTLINE = re.compile(r"^\s*//@\s*\+(.*)$")
 
 
@@ -534,7 +545,7 @@ def generate(template_path, out_path, features=None):
                 loop_specs.setdefault(int(mm.group(1)), []).append(mm.group(2).rstrip())
             elif GHOSTHDR.match(t):
                 mm = GHOSTHDR.match(t)
-                ghost.append((mm.group(1), mm.group(2), []))
+                ghost.append((mm.group(1), mm.group(2) if mm.group(2) is not None else mm.group(3), []))
             elif GHOSTLINE.match(t):
                 if not ghost:
                     raise Undecided("stray ghost line in %s:%d" % (template_path, i + 1))
